@@ -467,6 +467,11 @@ class C11(Check):
                 if not admissible(d, ch):
                     res.count("inadmissible_tuple_template_pairs")
                     continue
+                if any(sg[0] == "liqc" for sg in t) and (d[4].replace("{", "")[:1].isalnum() or d[4].replace("{", "")[:1] in "_"):
+                    # inside {% liquid %} a line that starts with a word character is a tag name, so a comment
+                    # marker starting with one collides with the template text (outside the stated domain)
+                    res.count("inadmissible_tuple_template_pairs")
+                    continue
                 if not comments and d[4:] != DEFAULT[4:]:
                     # comment delimiters are irrelevant to a template without comments unless comments are enabled
                     comments_on = True
